@@ -98,6 +98,9 @@ type Obligation struct {
 	Query   string
 	vc      *VC
 	Vars    map[string]string // spec name -> SMT term (for model extraction)
+	KF      *KnownFinding
+	Split   []string
+	Confirmed string
 }
 
 type LoopInfo struct {
@@ -168,6 +171,8 @@ type VC struct {
 	epochCtr int
 	recSpecs map[string]*recSpecInfo
 	nameCount map[string]int
+	lemma     *Lemma
+	lemmaPkg  *ssa.Package
 	noSafety bool
 	qname string
 }
